@@ -31,6 +31,10 @@ CHECKS = {
         text="Action.tla models the agent->proxy hand-off as a stuttering step; TLC enumerates behaviours with the hand-off at different script positions; the harness serialises and restores the real Action there (rich shapes: unit ids, target hashes, text and HTML body filters) while a second copy never leaves memory; TLC checks decode success, equal re-serialisation (hash), and equality of every later observation (status, headers, body output, log decision, applied ids) with the in-memory copy and with the specification. Request JSON round trip is checked in the router traces.",
         note="Serialisations compared through a 64-bit FNV hash; JSON field fidelity is observed through behaviour and re-serialisation only. Bounded to the generated action shapes.",
         ref="DESIGN.md section 6, C06"),
+    "C07": dict(
+        text="Totality.tla: every public entry point (the whole rule -> router -> action -> header/body filter -> log pipeline, the four analyses in project and standalone form, Log::from_proxy, the tokenizer and the body-filter chain) is an action enabled for every argument of finite hostile value classes (transformer options against multi-byte captures, invalid / unbalanced / huge marker regexes, unknown header kinds, garbage ip / cidr / datetime / time / weekday strings, garbage example fields, max_hops 0/1/255, relative / host-less / unparsable redirect targets with and without project domains, empty element trees, unknown actions, invalid selectors, response codes 0 and 65535, empty and 5000-entry header lists, bodies: empty, lone '<', truncated, invalid UTF-8, 1 MiB script, 10 000 nested elements, garbage under every content-encoding) with the temporal property [](called => <>returned). TLC enumerates every single-dimension call and listed pairs; each is concretised and executed on the real library in a child process with a wall-clock bound; TLC validates that every call is followed by return, never panic / abort / timeout.",
+        note="Totality over the enumerated classes and over everything the other 18 checks drive (a panic is an event class in every trace specification); byte-level mutation (fuzzing) is outside this technique. C entry points with NULL patterns are covered by C18. Four panics found were repaired (slice from>to, slice inside a multi-byte character, invalid example address, host-less redirect target).",
+        ref="DESIGN.md section 6, C07"),
     "C08": dict(
         text="TLC explores every history (<=3 ops quick, <=4 thorough) of insert / remove / retain / cache over pools of 8-16 token patterns (escaped literals, marker groups incl. nested groups, escaped parentheses, parentheses inside character classes, empty-matching groups), case-sensitive and case-insensitive, checking on the code-shaped tree that find equals the linear scan for every probe string, len, get, replace-on-same-key, the prefix invariant and remove's return value; PrefixChar.tla shows by enumeration (all pairs of token sequences) that the character-level prefix function cuts exactly at the longest common token prefix. One history per distinct reachable tree is replayed on a real RegexTreeMap; after every operation len/find/get and the structural snapshot (hook H1) are validated by TLC against the linear scan (verdict) and the model's exact tree shape (drift); all token-sequence pairs are replayed into the real prefix function (hook H2).",
         note="Bounded to the token alphabet and pools of MC_RadixTree.tla; ids unique across patterns; the model's regex semantics is re-checked against the regex crate on the probe universe at each run (mismatch = tool error). Two genuine defects found by TLC in the model and confirmed on the code were repaired (fix: commits, see known_findings.json).",
